@@ -39,15 +39,34 @@ def const_material(dassh, name='coolfix', k=75.0, cp=1275.0, rho=850.0,
 
 def make_region(dassh, n_ring, dims, nd, se2=False, wire_dir='clockwise',
                 flow=1.0, ff='CTD', fs='CTD', mix='CTD', coolant=None,
-                byp_ff=0.05, grid=None, sf=1.0, tol=0.0, gravity=False):
-    """Construct a RoddedRegion directly from dimensions."""
+                byp_ff=0.05, grid=None, sf=1.0, tol=0.0, gravity=False,
+                order='asc'):
+    """Construct a RoddedRegion directly from dimensions. `order` is how
+    the flat-to-flat values are listed (the nesting is by magnitude):
+    ascending, descending, or the outermost duct first."""
     P, D, Dw, Pw, ftf = dims
     cool = coolant or const_material(dassh)
     duct = dassh.Material('ss316')
-    return dassh.RoddedRegion(
-        'probe', n_ring, P, D, Pw, Dw, 0.1 * D, list(ftf), flow, cool, duct,
+    asc = sorted(float(x) for x in ftf)
+    listed = list(asc)
+    if order == 'desc':
+        listed = asc[::-1]
+    elif order == 'outer-first':
+        listed = asc[-2:] + asc[:-2]
+    rr = dassh.RoddedRegion(
+        'probe', n_ring, P, D, Pw, Dw, 0.1 * D, listed, flow, cool, duct,
         None, ff, fs, mix, 'DB', None, grid, byp_ff, None, wire_dir, sf,
         se2, tol, gravity)
+    # the nesting the input means, for the geometric oracle
+    rr._verif_ftf = [[asc[2 * i], asc[2 * i + 1]]
+                     for i in range(len(asc) // 2)]
+    return rr
+
+
+def truth_ftf(rr):
+    t = getattr(rr, '_verif_ftf', None)
+    return [list(map(float, f)) for f in (t if t is not None
+                                          else rr.duct_ftf)]
 
 
 def random_dims(rng, n_ring, nd, bare=False):
@@ -107,7 +126,7 @@ class Projection:
             if k is not None and k[0] in (2, 3):
                 self.ext_by_key[tuple(k)] = i
         ring = {}
-        ftf = [list(map(float, f)) for f in rr.duct_ftf]
+        ftf = truth_ftf(rr)
         # expected apothems of the mid-thickness of every ring
         apo = []
         for d in range(self.ND):
@@ -282,7 +301,7 @@ def bundle_events(rr):
                               if x > 0],
                    'idx': p})
     # ---- areas (quanta of the inner-hexagon area)
-    ftf = [list(map(float, f)) for f in rr.duct_ftf]
+    ftf = truth_ftf(rr)
     hexa = S3 / 2 * ftf[0][0] ** 2
     D, Dw = rr.pin_diameter, rr.wire_diameter
     ct = math.cos(rr.params['theta'])
